@@ -81,7 +81,22 @@ func c06gen(rng *rand.Rand, hp *Pool, cat []catEntry) c06op {
 	all := hp.Vals
 	n := func(fam ...string) string { return c06pick(rng, all, fam...).Name }
 	small := func() string { return fmt.Sprint(rng.Intn(7) - 3) }
-	switch rng.Intn(25) {
+	switch rng.Intn(27) {
+	case 25, 26:
+		// == / != between values of one family (equal copies included): comparing reads both operands and changes neither
+		fam := []string{"obj", "map", "arr"}[rng.Intn(3)]
+		a := n(fam)
+		b := n(fam)
+		if rng.Intn(2) == 0 {
+			b = map[string]string{"obj": "{**%s}", "map": "%%{**%s}", "arr": "[*%s]"}[fam]
+			b = fmt.Sprintf(b, a)
+		}
+		if rng.Intn(2) == 0 {
+			// self-check: both operands are listed again after the comparisons
+			return c06op{c06selfCheck, fmt.Sprintf("{|a, b| l := {|v| [v.S, v.repr, v.A.S, v@{|x| x}.S] + ([v.keys.S, v.values.S, v.items.S] if v.kindOf?(Arr).! else [])}; before := [l(a), l(b)]; r := [a == b, b == a, a != b, a == a, b == b]; [l(a), l(b)] == before}(%s, %s)", a, b)}
+		}
+		op := []string{"==", "!=", "==", "==="}[rng.Intn(4)]
+		return c06op{"infix " + op + " within one family", fmt.Sprintf("[%s %s %s, %s %s %s]", a, op, b, b, op, a)}
 	case 23, 24:
 		// compound assignment on a variable that aliases an earlier value: the variable changes, the value does not
 		v := n("arr", "str", "int", "obj", "map", "float")
